@@ -1,0 +1,10 @@
+//go:build verif
+
+// Contracts for the verifier in /verif (comment-only; compiled only with -tags verif, adds no code).
+package validator
+
+// Diagnostics are an unordered collection by the statement of C03 and C15: the order in which these
+// map ranges append diagnostics is not part of any result.
+//@ maprange-unordered (validator.MaxBlocks).Visit 1 diagnostics are an unordered collection
+//@ maprange-unordered (validator.MinBlocks).Visit 1 diagnostics are an unordered collection
+//@ maprange-unordered (validator.MissingRequiredAttribute).Visit 1 diagnostics are an unordered collection
